@@ -429,7 +429,20 @@ func (h *histCtx) genUpdate(forceMask string) *updSpec {
 	}
 	cur := h.cur[u.key]
 	var v protoreflect.Message
-	if cur != nil && rng.Chance(4, 5) {
+	if cur != nil && rng.Chance(1, 6) {
+		// a small step: one populated float field nudged by less than any tolerance a model may have configured for
+		// its subscribers; the write must be stored all the same (update-vs-get), streams may stay silent
+		v = proto.Clone(cur).ProtoReflect()
+		if p := nudgeFloat(rng, v, 0); p != "" {
+			u.valueKind = "derived-small"
+			u.touched = []string{p}
+			h.r.Count("updates-by-a-small-float-step", 1)
+		} else {
+			v = nil
+		}
+	}
+	if v != nil {
+	} else if cur != nil && rng.Chance(4, 5) {
 		u.valueKind = "derived"
 		v = proto.Clone(cur).ProtoReflect()
 		n := rng.Range(1, 3)
@@ -475,6 +488,54 @@ func (h *histCtx) genUpdate(forceMask string) *updSpec {
 		u.extras += string(fd.Name()) + ","
 	}
 	return u
+}
+
+// nudgeFloat changes one populated float/double field of m (or of a populated singular sub-message) by a tiny
+// amount and returns the top-level field it lies in ("" when there is none).
+func nudgeFloat(rng *vk.Rand, m protoreflect.Message, depth int) string {
+	var cands []protoreflect.FieldDescriptor
+	m.Range(func(fd protoreflect.FieldDescriptor, _ protoreflect.Value) bool {
+		switch {
+		case fd.IsList() || fd.IsMap():
+		case fd.Kind() == protoreflect.FloatKind || fd.Kind() == protoreflect.DoubleKind:
+			cands = append(cands, fd)
+		case fd.Message() != nil && depth == 0:
+			cands = append(cands, fd)
+		}
+		return true
+	})
+	sort.Slice(cands, func(i, j int) bool { return cands[i].Number() < cands[j].Number() })
+	for _, k := range rng.Perm(len(cands)) {
+		fd := cands[k]
+		if fd.Message() != nil {
+			if nudgeFloat(rng, m.Mutable(fd).Message(), depth+1) != "" {
+				return string(fd.Name())
+			}
+			continue
+		}
+		x := m.Get(fd).Float()
+		if x != x || x > 1e30 || x < -1e30 {
+			continue
+		}
+		y := x + 0.004
+		if rng.Bool() {
+			y = x * (1 + 1e-5)
+		}
+		if fd.Kind() == protoreflect.FloatKind {
+			y = float64(float32(y))
+			if float32(y) == float32(x) {
+				y = float64(float32(x) + 0.004)
+			}
+			m.Set(fd, protoreflect.ValueOfFloat32(float32(y)))
+		} else {
+			m.Set(fd, protoreflect.ValueOfFloat64(y))
+		}
+		if y == x {
+			continue
+		}
+		return string(fd.Name())
+	}
+	return ""
 }
 
 // doUpdate sends u, then checks update-vs-get / rejected-changed and the open streams. It returns the response,
